@@ -1,9 +1,16 @@
+"""C12 — Observations are faithful views of the state.  Driver over the per-environment sidecar contracts (contracts/<env>.py): keeps the clauses named C12.*"""
 from jxv import envdriver
+
+LEVEL = "proof"
+CONFIG_BOUND = "configurations listed in contracts/envs.py or in the contract module itself (small and adversarial: non-square, minimum sizes, >1 agents); values unbounded"
+NOT_VERIFIED = ["environments / clauses for which no C12 clause is present in the contract module (the evidence lists, per task, which clauses were discharged)",
+                "configurations outside the list"]
+ASSUMPTIONS = ["sampler contracts of jax.random (DESIGN.md section 5)", "induction over the episode from the per-step obligations (reset establishes Inv, step preserves it)"]
 
 
 def tasks(tier):
     return envdriver.tasks("C12", tier)
 
 
-LEVEL_TEXT = "wip"
-LEVEL_NOTE = "wip"
+LEVEL_TEXT = ('Proof: for every listed configuration and ALL states, every observation field returned by reset/step equals the documented function of the returned state (copied fields syntactically, normalisations / feature planes / sorted EMS / field-of-view windows by SMT), element by element.')
+LEVEL_NOTE = ('spec_obs functions transcribed from the observation docstrings; per-configuration; floats as reals.')
